@@ -55,6 +55,8 @@ type FuncContract struct {
 	Transfers []Transfer
 	Fresh     []string // results that are freshly allocated (or nil)
 	Asserts   map[string][]Clause // call-site assertions keyed by "call.name#k"
+	Assumes   map[string][]Clause // call-site ASSUMPTIONS (unchecked; listed in the evidence)
+	Stable    []Clause            // facts about shared state assumed after every Lock (rely; listed in the evidence)
 	GhostVars []QVar              // ghost locals (name, sort); visible in ensures as their final values
 	GhostSets map[string][]GhostSet // site -> assignments executed just before the site
 	Captures  []Clause // closure: facts about captured values, checked at creation, assumed at entry
@@ -97,6 +99,7 @@ type Monitor struct {
 	Guards     []string
 	GhostHavoc []string // ghost names havocked at Lock
 	Invariants []Clause
+	Invariants2 []Clause // two-state: old(e) is e at the matching Lock; checked at Unlock only
 	Pkg        string
 }
 
@@ -417,6 +420,12 @@ func (sp *Specs) loadContractFile(path, pkg string, assumed bool) error {
 				return fmt.Errorf("%s:%d: ghostvar name Sort", path, l.line)
 			}
 			curFn.GhostVars = append(curFn.GhostVars, QVar{f[0], f[1]})
+		case "stable":
+			c, err := mkClause(wtag, rest, l.line)
+			if err != nil {
+				return err
+			}
+			curFn.Stable = append(curFn.Stable, c)
 		case "captures":
 			c, err := mkClause(wtag, rest, l.line)
 			if err != nil {
@@ -459,6 +468,22 @@ func (sp *Specs) loadContractFile(path, pkg string, assumed bool) error {
 					curFn.GhostSets = map[string][]GhostSet{}
 				}
 				curFn.GhostSets[parts[0]] = append(curFn.GhostSets[parts[0]], GhostSet{name, e, l.line})
+				continue
+			}
+			if as := strings.TrimSpace(parts[1]); strings.HasPrefix(as, "assume") {
+				re := regexp.MustCompile(`^assume(\[[^\]]*\])?\s+(.*)$`)
+				mm := re.FindStringSubmatch(as)
+				if mm == nil {
+					return fmt.Errorf("%s:%d: at <site> assume[reason] <expr>", path, l.line)
+				}
+				e, err := ParseExpr(mm[2])
+				if err != nil {
+					return fmt.Errorf("%s:%d: %v", path, l.line, err)
+				}
+				if curFn.Assumes == nil {
+					curFn.Assumes = map[string][]Clause{}
+				}
+				curFn.Assumes[parts[0]] = append(curFn.Assumes[parts[0]], Clause{Label: strings.Trim(mm[1], "[]"), Expr: e, Src: mm[2], File: path, Line: l.line})
 				continue
 			}
 			m := clauseHead.FindStringSubmatch(strings.TrimSpace(parts[1]))
@@ -582,9 +607,14 @@ func (sp *Specs) loadContractFile(path, pkg string, assumed bool) error {
 				return fmt.Errorf("%s:%d: %v", path, l.line, err)
 			}
 			tn := parts[0]
+			star := ""
+			if strings.HasPrefix(tn, "*") {
+				star, tn = "*", tn[1:]
+			}
 			if !strings.Contains(tn, ".") && curPkg != "" {
 				tn = curPkg + "." + tn
 			}
+			tn = star + tn
 			sp.ChanMsgs = append(sp.ChanMsgs, &ChanMsg{TypeName: tn, Inv: e, Pkg: curPkg, File: path, Line: l.line})
 		case "immutable":
 			for _, s := range strings.Fields(rest) {
@@ -614,7 +644,7 @@ func (sp *Specs) loadContractFile(path, pkg string, assumed bool) error {
 				return fmt.Errorf("%s:%d: ghosthavoc outside monitor", path, l.line)
 			}
 			curMon.GhostHavoc = append(curMon.GhostHavoc, strings.Fields(rest)...)
-		case "invariant":
+		case "invariant", "invariant2":
 			if curMon == nil {
 				return fmt.Errorf("%s:%d: invariant outside monitor", path, l.line)
 			}
@@ -622,7 +652,11 @@ func (sp *Specs) loadContractFile(path, pkg string, assumed bool) error {
 			if err != nil {
 				return err
 			}
-			curMon.Invariants = append(curMon.Invariants, c)
+			if wbase == "invariant2" {
+				curMon.Invariants2 = append(curMon.Invariants2, c)
+			} else {
+				curMon.Invariants = append(curMon.Invariants, c)
+			}
 		case "census":
 			// census[C10] name: rule args...
 			props, _ := parseTags(wtag)
